@@ -13,6 +13,7 @@ def V(id, props, *edits):
 
 
 RB = "lerax/buffer/rollout.py"
+RPB = "lerax/buffer/replay.py"
 ONP = "lerax/algorithm/on_policy.py"
 OFP = "lerax/algorithm/off_policy.py"
 PPO = "lerax/algorithm/ppo.py"
@@ -34,6 +35,11 @@ ENTRIES = [
     V("S-v-gae-static-split-same", "C03", (RB, "        next_non_terminals = 1.0 - self.dones.astype(float)", "        if self.dones.ndim == 1:\n            next_non_terminals = 1.0 - self.dones.astype(float)\n        else:\n            next_non_terminals = 1.0 - self.dones.astype(float)")),
     M("S-gae-static-split-wrong-branch", "C03", "C03", (RB, "        next_non_terminals = 1.0 - self.dones.astype(float)", "        if self.dones.ndim == 1:\n            next_non_terminals = 1.0 - self.dones.astype(float)\n        else:\n            next_non_terminals = jnp.ones_like(self.dones, dtype=float)")),
     M("S-dqn-loss-static-split", "C07", "C07", (DQN, "        not_terminal = (~batch.dones | batch.timeouts).astype(float)", "        if gamma == 1.0:\n            not_terminal = jnp.ones_like(batch.rewards)\n        else:\n            not_terminal = (~batch.dones | batch.timeouts).astype(float)")),
+    M("C07-x-timeouts-raw-position", "C07", "C07.7", (RPB, "timeouts = self.timeouts.at[idx].set(timeout)", "timeouts = self.timeouts.at[self.position].set(timeout)")),
+    M("C07-x-dones-other-slot", "C07", "C07.7", (RPB, "dones = self.dones.at[idx].set(done)", "dones = self.dones.at[idx - 1].set(done)")),
+    M("C11-x-branch-on-callback-state", "C11", "C11.3", (OFP, "        callback_state = callback.reset(ResetContext(locals()), key=callback_key)\n\n        return AbstractOffPolicyState(", "        if jax.tree.leaves(step_state.callback_state):\n            step_state = eqx.tree_at(lambda s: s.env_state, step_state, step_state.env_state)\n            init_key = starts_key\n        callback_state = callback.reset(ResetContext(locals()), key=callback_key)\n        if jax.tree.leaves(callback_state):\n            policy = jax.tree.map(lambda x: x, policy)\n\n        return AbstractOffPolicyState(")),
+    M("C11-x-learn-key-depends-on-callback", "C11", "C11.3", ("lerax/algorithm/base_algorithm.py", "        callback = self.consolidate_callbacks(callback)\n", "        callback = self.consolidate_callbacks(callback)\n        if isinstance(callback, CallbackList):\n            reset_key = learn_key\n")),
+    V("C11-x-v-branch-on-callback-same-result", "C11", ("lerax/algorithm/base_algorithm.py", "        callback = self.consolidate_callbacks(callback)\n", "        callback = self.consolidate_callbacks(callback)\n        if isinstance(callback, CallbackList):\n            n_observers = len(callback.callbacks)\n        else:\n            n_observers = 1\n")),
     M("C03-disc-nomask", "C03", "C03.3", (RB, "discounts = gamma * gae_lambda * next_non_terminals", "discounts = gamma * gae_lambda")),
     M("C03-boot-nomask", "C03", "C03.3", (RB, "gamma * next_values * next_non_terminals - self.values", "gamma * next_values - self.values")),
     M("C03-forward", "C03", "C03.1", (RB, "(deltas, discounts), reverse=True", "(deltas, discounts), reverse=False")),
@@ -108,7 +114,6 @@ ENTRIES = [
     V("C07-v-or-order", "C07", (SAC, "(~done | timeout)", "(timeout | ~done)")),
 ]
 
-RPB = "lerax/buffer/replay.py"
 BB = "lerax/buffer/base_buffer.py"
 MLP = "lerax/policy/actor_critic/mlp.py"
 UT = "lerax/utils.py"
